@@ -98,8 +98,11 @@ def _pad_face_connections(
 
     # Detect all the axes we have to deal with during padding
     # all the axes defined in the connections + the axes of the padding width should give all axes we need to iterate over
-    pad_axes = list(
-        set(_get_all_connection_axes(connections, facedim) + list(padding_width.keys()))
+    # (ordered like the axes of the grid, so that the result - including the corners of
+    # the halo, which depend on the order - is a function of the arguments only)
+    pad_axes = sorted(
+        set(_get_all_connection_axes(connections, facedim) + list(padding_width.keys())),
+        key=list(grid.axes).index,
     )
 
     padding_width = {axname: padding_width.get(axname, (0, 0)) for axname in pad_axes}
